@@ -16,6 +16,7 @@ import QiVerif.Driver.C14
 import QiVerif.Driver.C15
 import QiVerif.Driver.C12
 import QiVerif.Driver.C18
+import QiVerif.Driver.C05
 open QiVerif.Driver
 
 /-- parameters handed over by ./check from the regenerated constants -/
@@ -57,6 +58,7 @@ def dispatch (p : Params) (st : DState) (line : String) : DState × String :=
       ({ st with sv := s' }, out)
     else if op.startsWith "c12." then (st, C12.run ws)
     else if op.startsWith "idl." then (st, C18.run ws)
+    else if op.startsWith "gen." then (st, C05.run ws)
     else if op.startsWith "sd." then
       let (s', out) := C15.run st.sd ws
       ({ st with sd := s' }, out)
